@@ -296,7 +296,7 @@ void runModel(NifFile& nif, const std::string& what, Rng& rng, int rounds, int m
 }
 
 struct Plan { size_t api; size_t realRounds; int exhMax; };
-Plan plan() { return g_cfg.tier ? Plan{16000, 100, 7} : Plan{300, 4, 5}; }
+Plan plan() { return g_cfg.tier ? Plan{16000, 100, 7} : Plan{1500, 8, 5}; }
 
 void run(size_t idx) {
 	Plan p = plan();
